@@ -66,7 +66,7 @@ func c17(c *core.Ctx) {
 	// ---- R1
 	forbidden := map[*ssa.Function]string{
 		sm: "sendMessage",
-		p.Func("server", "(*client).publishHandler"):  "publishHandler",
+		p.Func("server", "(*client).publishHandler"): "publishHandler",
 		p.Func("server", "(*server).sendWillLocked"): "sendWillLocked",
 	}
 	path := reachesAny(c, eh, func(f *ssa.Function) bool { _, bad := forbidden[f]; return bad })
